@@ -79,7 +79,7 @@ def cases(tier):
     for m in EK.api_option_models(False):
         if 'title' in m:
             continue
-        for route in (('proc',) if 'comments' in m else ('cls', 'proc')):
+        for route in (('proc',) if ('comments' in m or 'header_cutoff' in m) else ('cls', 'proc')):
             out.append(dict(m=m, route=route, spelling='setfl'))
     # labels (anagrams, 8 characters, element lines of different lengths) and pair potentials of species without EAM functions
     for i, m in enumerate(EK.label_models(False, tier)):
